@@ -432,6 +432,40 @@ func outDir(verif, sub string) string {
 	return filepath.Join(verif, sub)
 }
 
+// removeNearNames deletes the entries next to path whose name starts with path's name up to one differing byte (the
+// name itself excepted): single-byte variants of the name, and names in which a damaged separator joined it with
+// what followed. Only below /dev/shm or the configured scratch base.
+func removeNearNames(path string, tail string) {
+	parent, name := filepath.Dir(path), filepath.Base(path)
+	if !strings.HasPrefix(parent, "/dev/shm") && (os.Getenv("VERIF_SCRATCH") == "" || !strings.HasPrefix(parent, os.Getenv("VERIF_SCRATCH"))) {
+		return
+	}
+	ents, err := os.ReadDir(parent)
+	if err != nil {
+		return
+	}
+	for _, e := range ents {
+		// a damaged byte >= 0x80 comes back from the JSON decoder as U+FFFD (three bytes)
+		n := strings.ReplaceAll(e.Name(), "\uFFFD", "\x00")
+		if len(n) < len(name) || e.Name() == name {
+			continue
+		}
+		d := 0
+		for i := 0; i < len(name); i++ {
+			if n[i] != name[i] {
+				d++
+			}
+		}
+		if d == 1 || (d == 0 && tail != "" && strings.HasSuffix(n, tail)) || (d == 0 && len(n) > len(name) && !isNameByte(n[len(name)])) || (d == 0 && len(n) > len(name) && strings.Contains(n[len(name):], "wu")) {
+			os.RemoveAll(filepath.Join(parent, e.Name()))
+		}
+	}
+}
+
+func isNameByte(b byte) bool {
+	return b >= '0' && b <= '9' || b >= 'a' && b <= 'z' || b >= 'A' && b <= 'Z' || b == '-'
+}
+
 // ParentMain runs a whole check; returns the process exit code.
 func ParentMain(id, tier string) int {
 	c := Get(id)
@@ -468,6 +502,10 @@ func ParentMain(id, tier string) int {
 	}
 	tmp := Scratch("res-" + id)
 	defer os.RemoveAll(tmp)
+	// C20 damages single bytes of a manifest that stores absolute paths under this directory: an engine opened on
+	// such a manifest creates directories whose names differ from ours in one byte. They are removed with us.
+	defer removeNearNames(tmp, "")
+	defer removeNearNames(filepath.Dir(tmp), filepath.Base(tmp))
 	total := NewResult()
 	var mu sync.Mutex
 	var wg sync.WaitGroup
